@@ -21,7 +21,7 @@ SHRINK_LISTS = ("ops",)
 PROBES = {"C13": ["prior-correlated", "prior-diagonal", "step>=10", "time-indexed", "ukf:k<0", "ukf:k>=0",
                   "ukf:default-k", "ukf:k-varies", "ekf:nonlinear", "QR-per-call", "pf:judged", "pf:low-ess-judged", "pf:far-from-origin", "outlier-measurement", "dims>=4", "spread>=1e4"]}
 TS = float(os.environ.get("PPSIM_TOLSCALE", "1"))
-TOL = 1e-10 * TS
+TOL = 1e-9 * TS
 
 
 class LinNLS(pp.module.NLS):
@@ -275,13 +275,15 @@ def execute(plan, prop, out, tr):
                 # Degenerate weights: the Monte-Carlo band is meaningless, but importance weighting still has to pull
                 # the resampled set towards the measurement.  The mean pre-image of the estimate, m = A^-1(x - Bu - c1),
                 # must explain y about as well as the best few of an independent prior sample do: its Mahalanobis
-                # distance to y may not exceed the (3*ESS + 50/N)-quantile of that sample's distances.
+                # distance to y may not exceed the max(25%, 10*ESS + 50/N)-quantile of that sample's distances (d(mean) <= weighted
+                # mean of the particles' distances by convexity, and with ESS < 5% that weight sits on the lowest few percent; a
+                # particle picked regardless of its weight lands above the 25% quantile three times out of four).
                 Rinv = np.linalg.inv(npd(R))
                 msel = np.linalg.solve(Mt0["A"], npd(xn) - Mt0["B"] @ un - Mt0["c1"])
                 rm = yn - (Mt0["C"] @ msel + Mt0["D"] @ un + Mt0["c2"])
                 d1 = float(rm @ Rinv @ rm)
                 dz = np.einsum("ij,jk,ik->i", res, Rinv, res)
-                level = min(0.5, 3 * ess + 50.0 / N + 50.0 / Ms)
+                level = min(0.6, max(0.25, 10 * ess + 50.0 / N + 50.0 / Ms))
                 thr = float(np.quantile(dz, level))
                 out.probe("pf:low-ess-judged")
                 if d1 > thr * (1 + 1e-6) + 1e-9:
@@ -323,7 +325,7 @@ def describe(prop):
         "real": ["pypose.module.EKF", "pypose.module.UKF", "pypose.module.PF", "pypose.module.NLS (linearisation)",
                  "pypose.bmv / bvv"],
         "stub": ["plants (LinNLS, GenNLS) and the seeded noise source"],
-        "assumptions": ["float64; comparison tolerance 1e-10 * cond(S) (x10 for covariances; widened for negative UKF "
+        "assumptions": ["float64; comparison tolerance 1e-9 * cond(S) (x10 for covariances; widened for negative UKF "
                         "centre weights), abstains above 1e-3", "PF: particle model 'X_i ~ N(x, nP), weights from the "
                         "Gaussian likelihood of y at g(X_i,u), estimate = mean of resampled f(X_i,u)'; 6-sigma band with "
                         "sigma^2 = 2 diag(A P_post A^T)/(N * ESS fraction); abstains when ESS < 5%",
